@@ -176,7 +176,7 @@ def run_file(item):
                         if rr[1].tdms_version != version:
                             res['violations'].append(_viol(name, hist, seed, cfg, version, rr[1].tdms_version, 'version'))
                         snap = snapshot(rr[1])
-                        why = compare(src, snap) or compare_ref(ref, snap)
+                        why = compare(src, snap) or (None if any(sg.get('short') for sg in hist) else compare_ref(ref, snap))
                         if why:
                             res['violations'].append(_viol(name, hist, seed, cfg, 'copy == source', why[1], why[0]))
                         if index and iout is not None:
